@@ -38,7 +38,8 @@ ObsInit(DK) ==
     dirty |-> [dk \in DK |-> FALSE],   \* a purge could not delete the persisted copy (the store refused)
     stuck |-> {},
     early |-> {},     \* requests released from the queue while the fetch they queued behind had not ended
-    badpub |-> 0,     \* completions published on a key whose stored response / hit-for-pass period had not lapsed
+    badpub |-> 0,
+    badstore |-> 0,   \* records persisted under a key that do not decode, or hold a response obtained for another key     \* completions published on a key whose stored response / hit-for-pass period had not lapsed
     kills |-> 0 ]
 
 NewReq(k, d, m, pe0) ==
@@ -170,6 +171,11 @@ OHfp(o0, e, d, k, now, eff) ==
                         [kind |-> "hfp", at |-> now, until |-> now + eff, ver |-> 0, live |-> TRUE]]
      ELSE o1
 
+(* the store was handed a record for key k: decodes (ok) and holds version v (0: no response, e.g. hit-for-pass) *)
+OPersisted(o0, k, v, ok) ==
+  LET o == GC(o0) IN
+  [o EXCEPT !.badstore = IF ~ok \/ (v \in DOMAIN o.ver /\ o.ver[v].key # k) THEN @ + 1 ELSE @]
+
 (* a parked request was released *)
 OWoken(o0, r) ==
   LET o == GC(o0)
@@ -237,6 +243,9 @@ P_SingleFlight(o) ==
 (* C01/C04/C07: nothing is published on a key while its stored response or its hit-for-pass period has
    not lapsed (there is nobody who could legitimately have been fetching it) *)
 P_NoUntimelyPublish(o) == o.badpub = 0
+
+(* C08/C09: what is persisted under a key is a well-formed record of that key *)
+P_StoreMatchesKey(o) == o.badstore = 0
 
 (* C01: a request that queued behind a fetch is not released before that fetch has ended *)
 P_NoEarlyRelease(o) == o.early = {}
